@@ -105,6 +105,7 @@ class Runner(object):
             self.ci = 0
             self.newchoices = []
             self.notes = []
+            self.constdicts = getattr(self, "constdicts", {})
             self.effects = []
             self.last_line = fi.node.lineno
             env = dict(env0)
@@ -236,6 +237,8 @@ class Runner(object):
     def store(self, t, v, env, fi, cls, stmt):
         if isinstance(t, ast.Name):
             env[t.id] = v
+            for k in [k for k in env if k.startswith("@in:%s:" % t.id)]:
+                del env[k]
             return
         if isinstance(t, (ast.Tuple, ast.List)):
             for e in t.elts:
@@ -373,6 +376,16 @@ class Runner(object):
                         env[t.left.id] = env[key]
                     return isnone if isinstance(op, ast.Is) else not isnone
                 return None
+            if isinstance(op, (ast.In, ast.NotIn)) and r.tag and r.tag.startswith("constdict:") and isinstance(t.left, ast.Name):
+                if l.kinds & UNHASHABLE:
+                    if "any" in l.kinds:
+                        self.may_raise(["builtins.TypeError"], t)
+                    else:
+                        self.raise_("builtins.TypeError", t)
+                isin = self.choose(2) == 0
+                if isin:
+                    env["@in:%s:%s" % (t.left.id, r.tag)] = V({"bool"})
+                return isin if isinstance(op, ast.In) else not isin
             if isinstance(op, (ast.In, ast.NotIn)):
                 res = self.membership(l, r, t)
                 if res is None:
@@ -430,6 +443,23 @@ class Runner(object):
         if isinstance(e, ast.Name):
             if e.id in env:
                 return env[e.id]
+            r = self.idx.resolve(fi.module, e, fi)
+            if r is not None and r[0] == "const" and self.idx._single_assignment(r[1], r[2]):
+                # a module-level lookup table / constant: its folded value
+                try:
+                    c = self.idx.const(r[1], r[1].consts[r[2]])
+                except KeyError:
+                    c = None
+                if isinstance(c, dict):
+                    self.constdicts["%s.%s" % (r[1].name, r[2])] = c
+                    return V({"dict1" if c else "dict0"}, tag="constdict:%s.%s" % (r[1].name, r[2]))
+                if isinstance(c, (list, tuple)):
+                    k = "list" if isinstance(c, list) else "tuple"
+                    return V({k + ("1" if c else "0")}, tag="constseq")
+                if isinstance(c, bool):
+                    return V({"bool"})
+                if isinstance(c, (int, float, str)):
+                    return V({type(c).__name__})
             return V({"global"}, tag=self.idx.qualname(fi.module, e, fi) or e.id)
         if isinstance(e, ast.Attribute):
             key = "@" + _src(e)
@@ -477,6 +507,17 @@ class Runner(object):
         if isinstance(e, ast.Subscript):
             b = self.ev(e.value, env, fi, cls)
             i = self.ev(e.slice, env, fi, cls)
+            if b.tag and b.tag.startswith("constdict:"):
+                c = self.constdicts.get(b.tag.split(":", 1)[1], {})
+                vk = set()
+                for x in c.values():
+                    vk.add("none" if x is None else "bool" if isinstance(x, bool) else "int" if isinstance(x, int) else "float" if isinstance(x, float) else "str" if isinstance(x, str) else "any")
+                if i.kinds & UNHASHABLE and "any" not in i.kinds:
+                    self.raise_("builtins.TypeError", e)
+                checked = isinstance(e.slice, ast.Name) and ("@in:%s:%s" % (e.slice.id, b.tag)) in env
+                if not checked:
+                    self.may_raise(["builtins.KeyError"] + (["builtins.TypeError"] if "any" in i.kinds else []), e)
+                return V(vk or {"any"})
             return self.subscript(b, i, e)
         if isinstance(e, (ast.ListComp, ast.GeneratorExp, ast.SetComp)):
             g = e.generators[0]
